@@ -481,6 +481,38 @@ extend('C16',
        'ROUND 3 — MatchStrategy.AcAutomaton is probed with the same oracle (recorded finding acautomaton-unusable: the port '
        'cannot be constructed).')
 
+extend('C08',
+       'ROUND 3 — (a) the Chinese configuration\'s own parsers (chinese/date_parser, dateperiod_parser, duration_parser, '
+       'datetime_parser) are modelled function by function (Model/ZhDateTime; Props/C08Zh): the C08 statements (今天…大前天, '
+       '这/下/上 + weekday, N天/周/月/年 前/后, 这周/下个月/明年…) are proved for that code for every reference and every N; 今年 = '
+       'year to date (expected by the Specs) is proved as a theorem and recorded; three defects found here (N个月/年 前/后 '
+       'ignored N, relative-month simple ranges, fourth quarter) were REPAIRED in /repo — repaired variants at full '
+       'strength, pre-fix variants as labelled regressions, the harness probes which variant the tree follows; ~35k unit '
+       'calls per run + a zh-cn pipeline oracle. (b) the decision methods of the culture parser CONFIGURATIONS (get_swift_*, '
+       'is_future, is_last_cardinal, get_hour …: 223 methods of 8 cultures) are TRANSLATED FROM THE SOURCE TEXT on every '
+       'run into a decision-expression language with a total Lean evaluator (Model/CultureCfg; Props/C08Config*): '
+       'kernel-checked theorems on the regenerated definitions (every get_swift* answers only its listed shifts for every '
+       'text; each culture\'s own today/tomorrow/yesterday words and every instance of its Next/Previous/This prefix regex '
+       'give +k/+1/-1/0; get_hour stays in 0..23), unit correspondence of every translated method (~0.7M calls quick, 2M '
+       'thorough), two pipeline sweeps, and a search that replays changed terms through recognize_datetime when an '
+       'obligation breaks. Found: the German and Italian "last" words resolve to the current period (recorded, fix pending).',
+       '79 configuration methods (index-returning extractor methods, adjust_by_prefix/suffix) are emitted as unsupported '
+       'and counted in the evidence.')
+extend('C09',
+       'ROUND 3 — the remaining BaseDateParser branches (a day number on its own, N weekdays from now, N days from tomorrow, '
+       '"Friday the 15th", "Friday 15", k-th weekday of a month, parse_single_number, the order of parse\'s sub-parsers) are '
+       'modelled (Model/DateParser; Props/C09DateParser, 33 theorems) and tied to BaseDateParser of four cultures (every '
+       'cardinal x weekday x month triple, boundary-first references): the k-th weekday is that weekday inside that month or '
+       'the code raises exactly when it does not exist; past < R <= future with year/month selection for weekday-of-month '
+       'and day numbers 1..28; all on-day values are valid dates; "Friday 15" results are that day and weekday on each side '
+       'of R and both searches terminate within the stated fuel; nine deviations are witness theorems replayed on the code.')
+extend('C06',
+       'ROUND 3 — shared-text histories: the same numeric text is asked of month-first and day-first cultures in ONE '
+       'process, in both orders (a match cache shared across cultures swaps day and month only then).')
+extend('C05',
+       'ROUND 3 — numerals made of a digit of the unit spelling ("2 m2", "3 km^3") are asked for every such row (a unit key '
+       'cut by splitting on the number text confuses the two digits).')
+
 ALL_IDS = ['C%02d' % i for i in range(1, 21)]
 PENDING = 'check not built yet in this revision (work in progress; see DESIGN.md §8 build order)'
 
